@@ -72,7 +72,7 @@ def summary_of(p, what):
     return res[0]
 
 
-def run(tier, replay):
+def _run(tier, replay):
     ctx = Ctx("C07", tier, "model_checking")
     bindir = build_harness(["httpresp"])
     hbin = os.path.join(bindir, "httpresp")
@@ -279,6 +279,19 @@ def run(tier, replay):
     return ctx.finish()
 
 
+def run(tier, replay):
+    """Entry point: _run plus removal of this process's scratch logs whatever the outcome."""
+    import glob
+    try:
+        return _run(tier, replay)
+    finally:
+        for f in glob.glob(os.path.join(vlib.workdir("C07"), "*-%d.ndjson" % os.getpid())):
+            try:
+                os.remove(f)
+            except OSError:
+                pass
+
+
 def selftest(hbin, vectors):
     """One flipped expected value per vector kind must make the harness report a mismatch (otherwise the
     replay would be comparing nothing): tool error, not a verdict about the code."""
@@ -354,5 +367,5 @@ def replay_case(ctx, hbin, path):
             ctx.violation("replayed random run (seed %s) is still rejected by %s: %s" % (case["seed"], mod, json.dumps(v["rejected"][:1])[:1200]), case)
     else:
         vlib.log("replay: unknown case kind; running the quick tier")
-        return run("quick", None)
+        return _run("quick", None)
     return ctx.finish()
